@@ -533,6 +533,45 @@ def judge(ctx, rep):
                      % rep['error_type'], short)
 
 
+def dual_package_probe(ctx):
+    """an app that ships both an `evolutions` and a `migrations` package and is tracked by evolutions (no hand-over yet),
+    with a pending evolution that does not reach the models (tools/vlib/c12_worker.py, own process: the migrations
+    package has to be on disk before Django starts): the command refuses and touches nothing"""
+    import os
+    import subprocess
+    import sys
+    import tempfile
+    here = os.path.dirname(os.path.dirname(os.path.abspath(__file__)))
+    fd, out = tempfile.mkstemp(prefix='devo-c12-', suffix='.json')
+    os.close(fd)
+    try:
+        p = subprocess.run([sys.executable, '-B', os.path.join(here, 'c12_worker.py'), out],
+                           stdout=subprocess.PIPE, stderr=subprocess.STDOUT, timeout=max(60, ctx.time_left()))
+        if p.returncode != 0:
+            raise RuntimeError('C12 worker failed: %s' % p.stdout.decode()[-600:])
+        r = json.load(open(out))
+    finally:
+        if os.path.exists(out):
+            os.unlink(out)
+    rep = {'scenario': 'app with an evolutions and a migrations package, pending evolution that does not reach the models',
+           'observed': r}
+    ctx.count('dual_package_probe:%s' % r['outcome'])
+    ctx.case({'scenario': rep['scenario'], 'outcome': r['outcome']}, nontrivial=True, sample_cap=1)
+    if r['baseline'] != 'ok':
+        ctx.fail(None, 'the app with both packages cannot be installed: %s' % r['baseline'], rep)
+        return
+    if r['stored_upgrade_method'] != 'evolutions':
+        ctx.fail(None, 'an app that ships evolutions and migrations and was never handed over is stored with upgrade '
+                 'method %r' % r['stored_upgrade_method'], rep)
+    if r['outcome'] == 'ok':
+        ctx.fail(None, 'an evolution that does not reach the models of an app with both packages was %s'
+                 % ('executed: %s changed' % r['changed'] if r['changed'] else 'reported as success although the models differ'), rep)
+    elif r['error_type'] != 'CommandError':
+        ctx.fail(None, 'the command crashed with %s instead of refusing' % r['error_type'], rep)
+    elif r['changed']:
+        ctx.fail(None, 'refused, but the database changed: %s' % r['changed'], rep)
+
+
 def run(ctx):
     evorig.setup()
     quick = ctx.tier == 'quick'
@@ -547,6 +586,7 @@ def run(ctx):
     simcorr.check_cases(ctx, cases)
     for spec, sig, muts, final in cases:
         ctx.case({'simulate': [sigs.model_mutation(m) for m in muts]}, nontrivial=bool(muts), sample_cap=2)
+    dual_package_probe(ctx)
     # 2. the gate, on the real command
     n = 90 if quick else 1500
     done = 0
@@ -576,8 +616,20 @@ def run(ctx):
 
 
 def replay(ctx, obj):
-    evorig.setup()
     r = obj.get('replay', obj)
+    if isinstance(r, dict) and str(r.get('scenario', '')).startswith('app with an evolutions and a migrations package'):
+        class _C(object):
+            failures = []
+            def count(self, *a, **k): pass
+            def case(self, *a, **k): pass
+            def time_left(self): return 300
+            def fail(self, finding, what, rep): self.failures.append(what)
+        c = _C()
+        dual_package_probe(c)
+        for w in c.failures:
+            print(w[:400])
+        return 1 if c.failures else 0
+    evorig.setup()
     rep = run_case(r, prepared=False)
     print('outcome=%s writes=%s problems=%s message=%s' % (rep['outcome'], rep['writes'], rep['problems'], rep['message']))
     return 1 if rep['problems'] else 0
